@@ -1,7 +1,7 @@
 CONSTANTS
   MaxTasks = 2
   MaxWorkers = 2
-  MaxSenders = 2
+  MaxSenders = 1
   NWChoices = {2}
   ModeChoices = {TRUE, FALSE}
   FaultChoices = {"none", "boot", "poll"}
